@@ -600,40 +600,65 @@ MASS_FIXTURES = [("PCGamess_PUNCH.dat", "gamess", "gamess"), ("water_hf_ccpvtz_f
                  ("crambin.crd", "charmm", "charmm"), ("hf_sto3g.fchk", "fchk", "fchk"), ("ch3_hf_sto3g.fchk", "fchk", "fchk")]
 
 
+GEOM_FMTS = {"xyz": ("xyz", 2e-10), "pdb": ("pdb", 1e-3), "mol2": ("mol2", 2e-4), "sdf": ("sdf", 2e-4),
+             "gaussian-input-writer": ("gaussianinput", 2e-6), "poscar": ("poscar", 1e-9)}
+
+
 def _roundtrip(rng, units):
-    """writer A -> reader A -> writer B -> reader B on a random molecule; returns list of (sig, what, input)."""
-    from iodata import IOData, dump_one, load_one
+    """writer A -> reader A -> writer B -> reader B on a random molecule; returns (a, b, failures)."""
+    from iodata import IOData, load_one
 
     fails = []
     natom = rng.randint(1, 6)
     atnums = np.array([rng.choice([1, 6, 7, 8, 9, 16]) for _ in range(natom)])
-    coords = np.array([[round(rng.uniform(-8, 8), 3) for _ in range(3)] for _ in range(natom)])
-    masses = np.array([_standard_masses()[int(z)] * float(units["amu"]) * rng.uniform(0.99, 1.01) for z in atnums])
-    cell = np.array([[rng.uniform(8, 15), rng.uniform(-1, 1), 0.0], [0.0, rng.uniform(8, 15), rng.uniform(-1, 1)], [0.0, 0.0, rng.uniform(8, 15)]])
-    fmts = {"xyz": 2e-10, "extxyz": 2e-10, "pdb": 1e-3, "mol2": 2e-4, "sdf": 2e-4}
-    a, b = rng.sample(sorted(fmts), 2)
-    d = _tmpdir()
-    obj = IOData(atnums=atnums, atcoords=coords, atmasses=masses, cellvecs=cell, title="t")
+    atnums.sort()
+    atnums = atnums[::-1].copy()
+    coords = np.array([[round(rng.uniform(0.5, 9), 3) for _ in range(3)] for _ in range(natom)])
+    cell = np.array([[rng.uniform(20, 25), 0.0, 0.0], [rng.uniform(-1, 1), rng.uniform(20, 25), 0.0], [rng.uniform(-1, 1), rng.uniform(-1, 1), rng.uniform(20, 25)]])
+    a, b = rng.sample(sorted(GEOM_FMTS), 2)
+    obj = IOData(atnums=atnums, atcoords=coords, cellvecs=cell, title="t", charge=0)
     if "mol2" in (a, b):
         obj.atcharges = {"mol2charges": np.zeros(natom)}
     try:
-        with warnings.catch_warnings():
-            warnings.simplefilter("ignore")
-            p1 = os.path.join(d, "rt1." + a)
-            dump_one(obj, p1, fmt=a)
-            o1 = load_one(p1, fmt=a)
-            if b == "mol2" and o1.atcharges is None or b == "mol2" and "mol2charges" not in (o1.atcharges or {}):
-                o1.atcharges = {"mol2charges": np.zeros(natom)}
-            p2 = os.path.join(d, "rt2." + b)
-            dump_one(o1, p2, fmt=b)
-            o2 = load_one(p2, fmt=b)
-    except Exception as exc:  # noqa: BLE001
-        return a, b, []  # refusing is C02/C08 business
-    tol = 2 * (fmts[a] + fmts[b]) * float(units["angstrom"])
+        t1 = _dump_text(a, obj, "rt1." + a.split("-")[0])
+        o1 = _load_text(GEOM_FMTS[a][0], t1, "POSCAR.rt1" if a == "poscar" else "rt1." + a.split("-")[0])
+        if b == "mol2" and "mol2charges" not in (o1.atcharges or {}):
+            o1.atcharges = {"mol2charges": np.zeros(natom)}
+        if b == "poscar" and o1.cellvecs is None:
+            o1.cellvecs = cell
+        if o1.charge is None:
+            o1.charge = 0
+        t2 = _dump_text(b, o1, "rt2." + b.split("-")[0])
+        o2 = _load_text(GEOM_FMTS[b][0], t2, "POSCAR.rt2" if b == "poscar" else "rt2." + b.split("-")[0])
+    except Exception:  # noqa: BLE001
+        return a, b, None  # refusing an object is C02/C08 business
+    tol = 2 * (GEOM_FMTS[a][1] + GEOM_FMTS[b][1]) * float(units["angstrom"]) * 10 + 1e-9
     if o2.atcoords.shape != coords.shape or np.abs(o2.atcoords - coords).max() > tol:
         fails.append((f"roundtrip:{a}->{b}:atcoords", f"coordinates change by {np.abs(o2.atcoords - coords).max():.3e} bohr through {a} -> {b}",
                       {"kind": "roundtrip", "a": a, "b": b, "atnums": atnums.tolist(), "atcoords": coords.tolist()}))
     return a, b, fails
+
+
+def _wfn_roundtrips():
+    """the same wavefunction object through every wavefunction format: geometry, energy, masses must come back"""
+    out = []
+    src = _fchk_obj()
+    for fmt, attrs_ in (("fchk", ("atcoords", "energy", "atmasses")), ("molden", ("atcoords",)), ("molekel", ("atcoords",)),
+                        ("wfn", ("atcoords", "energy")), ("wfx", ("atcoords", "energy"))):
+        try:
+            back = _load_text(fmt, _dump_text(fmt, src, "w." + fmt), "w." + fmt)
+        except Exception as exc:  # noqa: BLE001
+            out.append((fmt, "dump/load", None, f"{type(exc).__name__}"))
+            continue
+        for at in attrs_:
+            x0, x1 = np.asarray(getattr(src, at), dtype=float), getattr(back, at)
+            if x1 is None:
+                out.append((fmt, at, None, "missing"))
+                continue
+            x1 = np.asarray(x1, dtype=float)
+            ok = x0.shape == x1.shape and bool(np.all(np.abs(x1 - x0) <= 2e-6 * np.maximum(1.0, np.abs(x0))))
+            out.append((fmt, at, ok, "" if ok else f"max diff {np.abs(x1 - x0).max():.3e}"))
+    return out
 
 
 def search(ctx):
@@ -688,9 +713,15 @@ def search(ctx):
     # two-format round trips
     for _ in range(ctx.n(150, 2000) * (3 if ctx.escalated else 1)):
         a, b, fails = _roundtrip(ctx.rng, units)
-        ctx.count("search-roundtrip", [a, b, _], f"{a}->{b}/{'ok' if not fails else 'BAD'}")
-        for sig, what, inp in fails:
+        ctx.count("search-roundtrip", [a, b, _], f"{a}->{b}/{'refused' if fails is None else 'ok' if not fails else 'BAD'}",
+                  nontrivial=fails is not None)
+        for sig, what, inp in fails or []:
             ctx.fail(sig, what, inp)
+    for fmt, at, ok, why in _wfn_roundtrips():
+        ctx.count("search-wfn-roundtrip", [fmt, at], f"{fmt}/{at}/{'skipped' if ok is None else 'ok' if ok else 'BAD'}", nontrivial=ok is not None)
+        if ok is False:
+            ctx.fail(f"roundtrip:fchk-object->{fmt}:{at}", f"{at} of the water_sto3g_hf_g03 object changes through {fmt}: {why}",
+                     {"kind": "wfn-roundtrip", "fmt": fmt, "attr": at})
     if _TMP:
         shutil.rmtree(_TMP, ignore_errors=True)
 
@@ -707,6 +738,8 @@ def replay(ctx, obj):
         rows, _ = run_probes(None, strict=False)
         return any(_row_ok_py(spec, units, f, q, d, a, b, s) is not True for f, q, d, a, b, s, _n in rows
                    if (f, q, d) == (inp["fmt"], inp["qty"], inp["dir"]))
+    if inp["kind"] == "wfn-roundtrip":
+        return any(ok is False for f, a, ok, _w in _wfn_roundtrips() if (f, a) == (inp["fmt"], inp["attr"]))
     if inp["kind"] == "mass":
         from iodata import load_one
 
